@@ -29,6 +29,21 @@ func (dv *Router) VerifBoot() error {
 	return nil
 }
 
+// VerifBootRegister is the first part of VerifBoot: what Start() does BEFORE it adds the router's
+// own entry to the RIB (face configuration, Interest handlers, routes). From here on the router
+// answers Interests; it sends nothing of its own before its loop runs.
+func (dv *Router) VerifBootRegister() error {
+	if err := dv.configureFace(); err != nil {
+		return err
+	}
+	return dv.register()
+}
+
+// VerifBootSelf is the rest of VerifBoot: the statement of Start() between register() and the loop.
+func (dv *Router) VerifBootSelf() {
+	dv.rib.Set(dv.config.RouterName(), dv.config.RouterName(), 0)
+}
+
 // VerifHeartbeat is the heartbeat arm of Start()'s loop.
 func (dv *Router) VerifHeartbeat() error { return dv.advertSyncSendInterest() }
 
